@@ -391,6 +391,7 @@ pub fn generate(run_seed: u64, quick: bool) -> Scenario {
             stack_kib,
             ops,
             preempt_ticks: vec![],
+            preempt_sites: vec![],
         }],
         sched: SchedSpec::RoundRobin,
         fuel: crate::eval::fuel_override().unwrap_or(FUEL),
